@@ -189,7 +189,7 @@ class Unit:
             self.tr.consts.setdefault(n, self.tr.consts[cls + '::' + n])
 
     # ----- classes -----
-    def struct(self, relpath, cls, cname=None, expect=None, typeover=None, default_init=None, bases=(), extra=None):
+    def struct(self, relpath, cls, cname=None, expect=None, typeover=None, default_init=None, bases=(), extra=None, only=None):
         """Emit a C struct whose members are read from the class definition in the header."""
         s = self.src(relpath)
         fields = []
@@ -201,6 +201,12 @@ class Unit:
         ci.src = s
         lines = []
         seen = []
+        if only is not None:
+            have = [f[1] for f in fields]
+            for o in only:
+                if o not in have:
+                    raise ExtractError('class %s has no member %s any more' % (cls, o))
+            fields = [f for f in fields if f[1] in only]
         for (ty, nm, dims, init) in fields:
             ty0 = ty
             if typeover and nm in typeover:
@@ -260,6 +266,30 @@ class Unit:
         init = find_initializer(s, name_re)
         init = re.sub(r'\s+', ' ', init)
         self.chunks.append(('table', 'static const %s = %s;\n' % (cdecl, init)))
+
+    def param(self, name, relpath='lib/texellib/parameters.hpp'):
+        """Tunable parameter DECLARE_PARAM(name, default, min, max, uci): becomes a symbolic int input
+        with its declared range (PARAM_MIN_/PARAM_MAX_/PARAM_DEF_ macros)."""
+        s = self.src(relpath)
+        ms = list(re.finditer(r'DECLARE_PARAM\(\s*' + re.escape(name) + r'\s*,\s*(-?\d+)\s*,\s*(-?\d+)\s*,\s*(-?\d+)\s*,', s.text))
+        if len(ms) != 1:
+            raise ExtractError('DECLARE_PARAM(%s) found %d times' % (name, len(ms)))
+        d, lo, hi = ms[0].groups()
+        self.chunks.append(('param', 'int %s; /* tunable parameter, symbolic */\n#define PARAM_DEF_%s (%s)\n#define PARAM_MIN_%s (%s)\n#define PARAM_MAX_%s (%s)\n' % (name, name, d, name, lo, name, hi)))
+        self.tr._pt_idents.add(name)
+        return int(d), int(lo), int(hi)
+
+    def passthrough(self, *names):
+        for n in names:
+            self.tr._pt_idents.add(n)
+            self.tr._pt_calls.add(n)
+
+    def stub(self, cname, proto):
+        """External function with an *assumed* contract (listed in the evidence): prototype only."""
+        if not hasattr(self, 'stubs'):
+            self.stubs = []
+        self.stubs.append((cname, proto))
+        self.passthrough(cname)
 
     def raw(self, text, kind='raw'):
         self.chunks.append((kind, text))
@@ -322,6 +352,10 @@ class Unit:
             f.text = '/* %s  %s:%d-%d */\n%s\n{%s}\n' % (f.qual, f.relpath, f.ft.line0, f.ft.line1, f.proto, body)
             defs.append(f.text)
         out.append('\n/* ---- spec (units/%s) ---- */\n' % self.name + extra_c)
+        for (cn, proto) in getattr(self, 'stubs', []):
+            if cn not in contracts:
+                raise ExtractError('stub %s has no contract' % cn)
+            protos.append('/* assumed contract (stub) */ ' + proto + self.contract_text(contracts[cn]) + ';')
         out.append('\n/* ---- prototypes ---- */\n' + '\n'.join(protos) + '\n')
         out.append('\n/* ---- extracted functions ---- */\n' + '\n'.join(defs))
         return '\n'.join(out)
@@ -433,4 +467,5 @@ class Unit:
             'translation_pins': self.pins,
             'rules_log': self.tr.log,
             'atomic_rewrites': self.tr.rules_fired.get('atomic', 0),
+            'stubs_with_assumed_contract': [c for c, _ in getattr(self, 'stubs', [])],
         }
